@@ -7,7 +7,7 @@
     exact dyadics with -0/NaN/+-Inf, strings, booleans, nil, slices of these. *)
 From Coq Require Import ZArith List Bool Lia Strings.Byte QArith.
 From YV Require Import Base.Wrap Val.Model Conv.Model Conv.Spec Conv.Proofs Conv.ProofsNum Conv.ProofsText
-  Conv.ProofsDec Conv.ProofsMain Conv.Front Conv.ProofsFront.
+  Conv.ProofsDec Conv.ProofsMain Conv.Front Conv.ProofsFront Conv.ProofsOracle.
 Import ListNotations.
 Open Scope Z_scope.
 
@@ -132,6 +132,15 @@ Theorem C10_to_enum_exact : forall el x e, wf_scalar x -> to_enum el x = Ok e ->
   In e el /\ (enum_agree e x \/ float_text x = true).
 Proof. exact to_enum_exact. Qed.
 Print Assumptions C10_to_enum_exact.
+
+(** The executable spec oracle of the correspondence check (Check/C10Check.v: exactb, rval_typedb)
+    is sound for the propositional spec: what the check accepts, the theorems speak about *)
+Theorem C10_exactb_sound : forall s r, exactb s r = true -> exact s r.
+Proof. exact exactb_sound. Qed.
+Print Assumptions C10_exactb_sound.
+Theorem C10_rval_typedb_sound : forall t r, rval_typedb t r = true -> rval_typed t r.
+Proof. exact rval_typedb_sound. Qed.
+Print Assumptions C10_rval_typedb_sound.
 
 (** non-vacuity: extreme sources are well-formed and do convert *)
 Example C10_hyps_met :
